@@ -866,7 +866,7 @@ package mpb
 //@   ensures  sent(ch) == old(sent(ch)) + 1 && unboxAs(lastSent(ch), "[]*Bar") == bHeap
 
 //@ func (heapManager).run
-//@   props    C05 C06 C02 C12 C14 C03 C17
+//@   props    C05 C06 C02 C12 C14 C03 C17 C07
 //@   requires m != nil
 //@   assumes  emptyheap()
 //@   loop 1   invariant pqwf(bHeap) && len(bHeap) >= 0
@@ -1279,6 +1279,8 @@ package mpb
 //@              && (hasType(returned("unwrap", 0), "decor.EwmaDecorator") ==> bs.ewmaDecorators[len(bs.ewmaDecorators) - 1] == returned("unwrap", 0))
 //@   ensures  result != nil && fresh(result)
 //@   ensures  initial: result.total == total && result.current == 0 && result.refill == 0 && result.triggerComplete == (total > 0) && !result.aborted && result.shutdown == 0
+//@   loop 1   invariant numbered: rangeindex < 0 ==> bs.priority == s.idCount && bs.id == s.idCount // before any option runs a bar is numbered and ordered by creation
+//@   ensures  kept: result.priority == entry(2, bs.priority) && result.id == entry(2, bs.id) // what the options left is final: nothing after them touches priority or id
 //@   ensures  ewma: forall(i, 0, len(result.ewmaDecorators), result.ewmaDecorators[i] != nil)
 //@   ensures  buffers: result.buffers[0] != nil && result.buffers[1] != nil && result.buffers[2] != nil
 //@              && result.buffers[0] != result.buffers[1] && result.buffers[0] != result.buffers[2] && result.buffers[1] != result.buffers[2]
